@@ -63,3 +63,38 @@ def all_arms(f):
         elif n['k'] == 'IfStmt':
             out.append((idents(f, n['cond']), idents(f, n['then']), f.N[n['then']], 'if'))
     return out
+
+
+def switch_arm_stmts(f, sw):
+    """[(case values, case identifier names, has_default, [statement nodes])] — arms split at break / next label"""
+    out = []
+    body = f.N[sw['body']]
+    cur = None
+    for st in f.kids(body):
+        n = st
+        vals, names, dflt, lab = [], [], False, False
+        while n['k'] in ('CaseStmt', 'DefaultStmt'):
+            lab = True
+            if n['k'] == 'CaseStmt':
+                if 'cv' in n:
+                    vals.append(n['cv'])
+                names += [x['n'] for x in f.walk(n['kids'][0]) if x['k'] == 'DeclRefExpr']
+            else:
+                dflt = True
+            n = f.N[n['sub']]
+        if lab:
+            if cur is not None and not cur[3]:
+                cur[0] += vals
+                cur[1] += names
+                cur[2] = cur[2] or dflt
+            else:
+                cur = [vals, names, dflt, []]
+                out.append(cur)
+            cur[3].append(n)
+        elif cur is not None:
+            cur[3].append(st)
+        last = n if lab else st
+        if cur is not None and (last['k'] in ('BreakStmt', 'ReturnStmt', 'ContinueStmt', 'GotoStmt') or
+                                (last['k'] == 'CompoundStmt' and f.kids(last) and f.kids(last)[-1]['k'] in ('BreakStmt', 'ReturnStmt', 'ContinueStmt', 'GotoStmt'))):
+            cur = None
+    return [tuple(x) for x in out]
